@@ -3,7 +3,7 @@
    Domain of every theorem: ns >= 1, 0 <= overlap < nswin, unbounded. *)
 From Coq Require Import ZArith List Bool Lia Ring.
 From IBL.lib Require Import PyInt.
-From IBL.C17 Require Import Model Proofs Object ObjectProofs.
+From IBL.C17 Require Import Model Proofs Object ObjectProofs ViewsProofs.
 From IBL.C17 Require FloatCeil HannRamp.
 Import ListNotations.
 Open Scope Z_scope.
@@ -242,6 +242,65 @@ Theorem C17_overlap_ge_window_diverges : forall ns nswin ov,
 Proof. exact firstlast_diverges. Qed.
 Print Assumptions C17_overlap_ge_window_diverges.
 
+(* ---------------------------------------------------------------------- *)
+(* Round 4: slice / slice_array / tscale related to firstlast.               *)
+
+(* wg.slice and wg.slice_array(sig, axis), consumed in any company and run to their end, yield exactly the
+   (first, last) of firstlast, in order, then StopIteration. *)
+Theorem C17_slice_views_are_firstlast :
+  forall ns nswin ov kinds evs st' outs l i k, 1 <= ns -> 0 <= ov < nswin ->
+  run_schedule ns nswin ov kinds evs = (st', outs) -> firstlast ns nswin ov = Some l ->
+  nth_error kinds i = Some k -> (length l <= count_next i evs)%nat ->
+  (k = KSlice -> firstn (length l) (outs_of i evs outs) = map (fun w => OSlice (fst w) (snd w)) l) /\
+  (k = KSliceArray -> firstn (length l) (outs_of i evs outs) = map (fun w => OSliceArray (fst w) (snd w)) l).
+Proof.
+  intros ns nswin ov kinds evs st' outs l i k Hns Hov Hr Hl Hk Hc.
+  split; intros ->;
+    destruct (exhausted_view ns nswin ov kinds evs st' outs l i _ Hns Hov Hr Hl Hk eq_refl Hc) as [H _];
+    exact H.
+Qed.
+Print Assumptions C17_slice_views_are_firstlast.
+
+(* slice_array: one array per window; along axis 0 (-2) it is rows first..last-1 of sig, along axis 1 (-1) the same
+   positions of every row (take_axis / zslice); zslice l a b has b - a elements, the j-th being l[a + j]. *)
+Theorem C17_slice_array_takes_the_windows :
+  (forall ns nswin ov axis sig L l,
+     slice_array_model ns nswin ov axis sig = Some L -> firstlast ns nswin ov = Some l ->
+     length L = length l /\
+     forall k, (k < length l)%nat ->
+       nth k L [] = take_axis axis sig (fst (nth k l (0, 0))) (snd (nth k l (0, 0)))) /\
+  (forall (A : Type) (sig : list A) a b j d, 0 <= a -> 0 <= j < b - a ->
+     nth (Z.to_nat j) (zslice sig a b) d = nth (Z.to_nat (a + j)) sig d) /\
+  (forall (A : Type) (sig : list A) a b, 0 <= a <= b -> b <= Z.of_nat (length sig) ->
+     length (zslice sig a b) = Z.to_nat (b - a)).
+Proof.
+  split; [exact slice_array_spec|]. split.
+  - intros A sig a b j d. exact (zslice_nth sig a b j d).
+  - intros A sig a b. exact (zslice_length sig a b).
+Qed.
+Print Assumptions C17_slice_array_takes_the_windows.
+
+(* zero overlap: the slices of a signal of length ns, put end to end, are the signal (each sample exactly once,
+   in order) -- for any element type, so for rows of an array sliced along axis 0 as well *)
+Theorem C17_slices_concat_zero_overlap :
+  forall (A : Type) ns nswin (sig : list A) l, 1 <= ns -> 0 < nswin ->
+  Z.of_nat (length sig) = ns -> firstlast ns nswin 0 = Some l ->
+  concat (map (fun w => zslice sig (fst w) (snd w)) l) = sig.
+Proof. intros A ns nswin sig l Hns Hw. exact (slices_concat_zero_overlap ns nswin Hns Hw sig l). Qed.
+Print Assumptions C17_slices_concat_zero_overlap.
+
+(* tscale: exactly one time per window (nwin of them); twice the k-th is first_k + last_k - 1, i.e. the time is the
+   centre (first + (last-1))/2 of the window divided by fs (tscale_q: numerator * fd / (2 fn) for fs = fn/fd);
+   strictly increasing. *)
+Theorem C17_tscale_one_time_per_window :
+  forall ns nswin ov ts l, 1 <= ns -> 0 <= ov < nswin ->
+  tscale2 ns nswin ov = Some ts -> firstlast ns nswin ov = Some l ->
+  Z.of_nat (length ts) = nwin ns nswin ov /\
+  (forall k, (k < length l)%nat -> nth k ts 0 = fst (nth k l (0, 0)) + snd (nth k l (0, 0)) - 1) /\
+  (forall k, (S k < length l)%nat -> nth k ts 0 < nth (S k) ts 0).
+Proof. exact tscale_spec. Qed.
+Print Assumptions C17_tscale_one_time_per_window.
+
 (* Non-vacuity: concrete triples meeting the hypotheses, with the model's values. *)
 Example C17_example_short_last :
   firstlast 13 10 4 = Some [(0, 10); (6, 13)] /\ nwin 13 10 4 = 2 /\
@@ -312,4 +371,16 @@ Proof. vm_compute. repeat split; try discriminate; reflexivity. Qed.
 (* C17_overlap_ge_window_diverges / C17_short_signal_single_window *)
 Example C17_example_domain_edges :
   firstlast 1000 300 576 = None /\ firstlast 200 300 576 = Some [(0, 200)] /\ firstlast 5 20 15 = Some [(0, 5)].
+Proof. vm_compute. repeat split. Qed.
+
+(* round 4: slice_array of a 5 x 2 array along axis 0 and of its transpose along axis 1, windows (5, 3, 1);
+   tscale at fs = 30000/1 *)
+Example C17_example_slice_array :
+  slice_array_model 5 3 1 0 [[0;1];[2;3];[4;5];[6;7];[8;9]] =
+    Some [[[0;1];[2;3];[4;5]]; [[4;5];[6;7];[8;9]]] /\
+  slice_array_model 5 3 1 (-1) [[0;2;4;6;8];[1;3;5;7;9]] =
+    Some [[[0;2;4];[1;3;5]]; [[4;6;8];[5;7;9]]] /\
+  option_map (map (tscale_q 30000 1)) (firstlast 5 3 1) = Some [(2, 60000); (6, 60000)] /\
+  concat (map (fun w => zslice [10;11;12;13;14;15;16] (fst w) (snd w)) [(0, 3); (3, 6); (6, 7)]) = [10;11;12;13;14;15;16] /\
+  firstlast 7 3 0 = Some [(0, 3); (3, 6); (6, 7)].
 Proof. vm_compute. repeat split. Qed.
